@@ -102,7 +102,28 @@ type Case struct {
 	Start   int    `json:"start"`
 	End     int    `json:"end"`
 	Step    int    `json:"step"`
+	// Nest: where the loop stands: "" directly in the unit function; "closure" in a function literal called at
+	// once; "overload-lambda" in a lambda passed to an overloaded function whose SECOND candidate matches
+	// (the compiler then compiles the lambda body once per candidate it tries)
+	Nest string `json:"nest,omitempty"`
 }
+
+// prelude: an overloaded function taking a callback, for the overload-lambda nesting.
+const prelude = `func onInt(n int, f func(int)) {
+	f(n)
+}
+
+func onStr(s string, f func(string)) {
+	f(s)
+}
+
+func on = (
+	onInt
+	onStr
+)
+`
+
+var opts = progs.Options{PerProgram: 400, Prelude: prelude}
 
 func unitFor(k Case) progs.Unit {
 	var c ctxt
@@ -178,6 +199,12 @@ func unitFor(k Case) progs.Unit {
 		_ = lit
 		body = decl + c.render(r)
 	}
+	switch k.Nest {
+	case "closure":
+		body = "func() {\n" + body + "\n}()"
+	case "overload-lambda":
+		body = "on \"s\", s => {\n_ = s\n" + body + "\n}"
+	}
 	body = "guard, calls := 0, 0\neven := func(i int) bool {\n\tif calls++; calls > 40 {\n\t\tpanic(\"runaway loop\")\n\t}\n\treturn i%2 == 0\n}\n_ = even\n" + body + "\nfmt.Println()"
 	return progs.Unit{Key: k.Context + "/" + k.Form, XGo: body, Want: want(seq)}
 }
@@ -196,10 +223,14 @@ func stepClass(k Case) string {
 // step operand is kept (the recorded defect, a run-time negative step, depends on nothing else), so one
 // defect does not spread over 25 keys while a defect in another step class or context stays visible.
 func formKey(k Case) string {
+	f := k.Form
 	if strings.HasPrefix(k.Form, "mix:") {
-		return "mix/step=" + k.Form[6:7]
+		f = "mix/step=" + k.Form[6:7]
 	}
-	return k.Form
+	if k.Nest != "" {
+		f += "@" + k.Nest
+	}
+	return f
 }
 
 func judge(k Case, r progs.UnitResult) *engine.Failure {
@@ -220,7 +251,7 @@ func main() {
 	if c.IsReplay() {
 		var k Case
 		c.LoadReplay(&k)
-		res, err := progs.RunUnits([]progs.Unit{unitFor(k)}, progs.Options{})
+		res, err := progs.RunUnits([]progs.Unit{unitFor(k)}, opts)
 		if err != nil {
 			c.Fatal("%v", err)
 		}
@@ -235,7 +266,19 @@ func main() {
 				for _, en := range vals {
 					for _, sp := range steps {
 						if c.Thorough() || (st == omitted || st%2 != 0 || st == 0) && en != 2 && en != -2 {
-							cases = append(cases, Case{cx.name, form, st, en, sp})
+							cases = append(cases, Case{Context: cx.name, Form: form, Start: st, End: en, Step: sp})
+						}
+					}
+				}
+			}
+		}
+		// the loop nested in a function literal and in a lambda argument of an overloaded function
+		if !strings.Contains(cx.name, "comprehension") {
+			for _, nest := range []string{"closure", "overload-lambda"} {
+				for _, st := range []int{omitted, 0, 3} {
+					for _, en := range []int{-3, 0, 3} {
+						for _, sp := range []int{-2, -1, 2, omitted} {
+							cases = append(cases, Case{Context: cx.name, Form: "literal", Start: st, End: en, Step: sp, Nest: nest})
 						}
 					}
 				}
@@ -255,7 +298,7 @@ func main() {
 								if !c.Thorough() && (st == 2 || sp == 1) {
 									continue
 								}
-								cases = append(cases, Case{cx.name, form, st, en, sp})
+								cases = append(cases, Case{Context: cx.name, Form: form, Start: st, End: en, Step: sp})
 							}
 						}
 					}
@@ -267,7 +310,7 @@ func main() {
 	for i, k := range cases {
 		units[i] = unitFor(k)
 	}
-	res, err := progs.RunUnits(units, progs.Options{PerProgram: 400})
+	res, err := progs.RunUnits(units, opts)
 	if err != nil {
 		c.Fatal("%v", err)
 	}
@@ -304,7 +347,7 @@ func main() {
 	if notRun > 0 {
 		c.Cap(fmt.Sprintf("%d cases were queued behind a non-terminating unit and were not run", notRun))
 	}
-	c.Rule = fmt.Sprintf("complete grid start in {omitted,-3..3} x end in -3..3 x step in {-3,-2,-1,1,2,3,omitted} x %d contexts (for <-, for in, for := range, for = range, for <- if, list comprehension, comprehension with if) x {literal operands, variable operands, computed (call) operands}, plus on a smaller value grid every mixture of literal / variable / stateful-call operands (a stateful call returns another value from its second evaluation on); quick thins start/end values; distinct_nontrivial = cases whose sequence is non-empty", len(contexts))
+	c.Rule = fmt.Sprintf("complete grid start in {omitted,-3..3} x end in -3..3 x step in {-3,-2,-1,1,2,3,omitted} x %d contexts (for <-, for in, for := range, for = range, for <- if, list comprehension, comprehension with if) x {literal operands, variable operands, computed (call) operands}, plus, for literal operands on a sub-grid, the loop nested in a function literal and in a lambda passed to an overloaded function (second candidate), plus on a smaller value grid every mixture of literal / variable / stateful-call operands (a stateful call returns another value from its second evaluation on); quick thins start/end values; distinct_nontrivial = cases whose sequence is non-empty", len(contexts))
 	c.Assumptions = []string{"rangeref: step>0 counts up while i<end, step<0 counts down while i>end; omitted start = 0, omitted step = 1", "programs are compiled in-process by parser+cl+gogen, built by the Go toolchain in a scratch module (go 1.23) and run with GOMAXPROCS=1"}
 	c.Finish()
 }
